@@ -161,9 +161,12 @@ func c01Direct(c *Ctx) {
 		}
 	}
 	// table-name families: every subset of tables cached, every table looked up
-	fam := []string{"t", "t1", "tt", "xt", "ns:t", "ns:xt", "ns:tt", "ns:t_t", "n:t", "nst:t", "ns:s"}
+	// (prefixes, suffixes, the same qualifier in two namespaces, and names that differ from a
+	// namespaced one only in the byte at the separator's position: '.' sorts below ':', '_'
+	// and letters above it)
+	fam := []string{"t", "t1", "tt", "ns:t", "ns_t", "ns.t", "nsxt", "ns:xt", "n:t", "xt", "ns:tt", "ns:t_t", "nst:t", "ns:s", "nxt"}
 	if !c.Thorough {
-		fam = fam[:9]
+		fam = fam[:11]
 	}
 	var famRegs [][]*lRegion
 	for i, tn := range fam {
